@@ -4715,7 +4715,7 @@ struct gjBVal_info gjBValInfoTable[] = {
 	{FOAM_BVal_SIntShiftDn,  GJ_Op,       JCO_OP_ShiftDn},
 	{FOAM_BVal_SIntBit,      GJ_Apply,   0,"foamj.Math",      "bit"},
 
-	{FOAM_BVal_SIntNot,      GJ_Op,     JCO_OP_XOr, "0"},
+	{FOAM_BVal_SIntNot,      GJ_Op,     JCO_OP_XOr, "-1"},
 	{FOAM_BVal_SIntAnd,      GJ_Op,     JCO_OP_And},
 	{FOAM_BVal_SIntOr,       GJ_Op,     JCO_OP_Or},
 	{FOAM_BVal_SIntXOr,      GJ_Op,     JCO_OP_XOr},
